@@ -1,367 +1,675 @@
-(** Invariants of Abs(thread descriptor) (coq/Sched/DescModel.v) and the lemmas behind the
-    theorems of Properties_C01.v / Properties_C13.v.  Every invariant is proved for every number
-    of threads, every program (sequence of calls enabled by the usage contract) and every
-    schedule, through Lib/Interleave.v. *)
+(** Abs(thread descriptor): the invariant holds in every reachable state (every number of threads,
+    every program enabled by the usage contract, every schedule), and the lemmas that
+    Properties_C01.v / Properties_C13.v state as theorems. *)
 From Coq Require Import ZArith List Bool Arith Lia.
-From MT Require Import Lib.Interleave Sched.DescModel.
+From MT Require Import Lib.Interleave Sched.DescModel Sched.DescInv
+  Sched.DescPres1 Sched.DescPres2 Sched.DescPres3 Sched.DescPres4.
 Import ListNotations.
 
-(* ------------------------------------------------------------------------------------------ *)
-(** * Lists and state access *)
-
-Lemma upd_length {A} (l : list A) i x : length (upd l i x) = length l.
+Theorem Inv_step s a s' : Inv s -> step s a = Some s' -> Inv s'.
 Proof.
-  revert i; induction l as [|y l IH]; intros [|i]; cbn [upd length]; try reflexivity.
-  now rewrite IH.
+  intros HI H. constructor.
+  - exact (pres_claim s a s' HI H).
+  - exact (pres_rdone_c s a s' HI H).
+  - exact (pres_rdone_p s a s' HI H).
+  - exact (pres_det_rdone s a s' HI H).
+  - exact (pres_fresh s a s' HI H).
+  - exact (pres_cbmain s a s' HI H).
+  - exact (pres_cbfin s a s' HI H).
+  - exact (pres_lock_a s a s' HI H).
+  - exact (pres_lock_b s a s' HI H).
+  - exact (pres_status s a s' HI H).
+  - exact (pres_cbdet_f s a s' HI H).
+  - exact (pres_cbdet_r s a s' HI H).
+  - exact (pres_dset s a s' HI H).
+  - exact (pres_jreap s a s' HI H).
+  - exact (pres_dreap s a s' HI H).
+  - exact (pres_jt s a s' HI H).
+  - exact (pres_runs0 s a s' HI H).
+  - exact (pres_runs1 s a s' HI H).
+  - exact (pres_created s a s' HI H).
+  - exact (pres_retv s a s' HI H).
+  - exact (pres_alloc s a s' HI H).
+  - exact (pres_sfreed s a s' HI H).
+  - exact (pres_freed_eq s a s' HI H).
+  - exact (pres_freed s a s' HI H).
+  - exact (pres_rdone_f s a s' HI H).
+  - exact (pres_det_f s a s' HI H).
+  - exact (pres_ready2 s a s' HI H).
+  - exact (pres_ready2_c s a s' HI H).
+  - exact (pres_joins s a s' HI H).
+  - exact (pres_clock s a s' HI H).
+  - exact (pres_badwake s a s' HI H).
 Qed.
 
-Lemma nth_upd_eq {A} (l : list A) i x d : i < length l -> nth i (upd l i x) d = x.
+Theorem Inv_reach s : Reach s -> Inv s.
 Proof.
-  revert i; induction l as [|y l IH]; intros [|i] H; cbn [upd nth length] in *; try lia; try reflexivity.
-  apply IH; lia.
+  apply invariant_rule.
+  - intros s0 [n ->]. apply Inv_init.
+  - intros s0 a s1 HI H. exact (Inv_step s0 a s1 HI H).
 Qed.
 
-Lemma nth_upd_neq {A} (l : list A) i k x d : k <> i -> nth k (upd l i x) d = nth k l d.
-Proof.
-  revert i k; induction l as [|y l IH]; intros [|i] [|k] H; cbn [upd nth]; try reflexivity; try congruence.
-  apply IH; congruence.
-Qed.
-
-Lemma len_modify s i f : length (thr (modify s i f)) = length (thr s).
-Proof. unfold modify, set_thr; cbn [thr]. apply upd_length. Qed.
-
-Lemma gt_modify s i f k :
-  i < length (thr s) -> gt (modify s i f) k = if k =? i then f (gt s i) else gt s k.
-Proof.
-  intros H. unfold gt at 1, modify, set_thr; cbn [thr].
-  destruct (Nat.eqb_spec k i) as [->|Hn].
-  - now apply nth_upd_eq.
-  - now apply nth_upd_neq.
-Qed.
-
-Lemma gt_out s i : length (thr s) <= i -> gt s i = tnone.
-Proof. intros H. unfold gt. now apply nth_overflow. Qed.
-
-Lemma main_inr s i : main (gt s i) <> NoThread -> i < length (thr s).
-Proof.
-  intros H. destruct (Nat.lt_ge_cases i (length (thr s))) as [Hl|Hg]; [exact Hl|].
-  rewrite (gt_out _ _ Hg) in H. now elim H.
-Qed.
-
-Lemma gt_tick_clock s k : gt (tick_clock s) k = gt s k.
-Proof. reflexivity. Qed.
-Lemma gt_add_join s j t v k : gt (add_join s j t v) k = gt s k.
-Proof. reflexivity. Qed.
-Lemma gt_set_badwake s k : gt (set_badwake s) k = gt s k.
-Proof. reflexivity. Qed.
-Lemma gt_set_crashed s k : gt (set_crashed s) k = gt s k.
-Proof. reflexivity. Qed.
-Lemma len_add_join s j t v : length (thr (add_join s j t v)) = length (thr s).
-Proof. reflexivity. Qed.
-Lemma len_set_badwake s : length (thr (set_badwake s)) = length (thr s).
-Proof. reflexivity. Qed.
-
-(** the other components of the state *)
-Lemma clock_modify s i f : clock (modify s i f) = clock s. Proof. reflexivity. Qed.
-Lemma joins_modify s i f : joins (modify s i f) = joins s. Proof. reflexivity. Qed.
-Lemma badwake_modify s i f : badwake (modify s i f) = badwake s. Proof. reflexivity. Qed.
-Lemma crashed_modify s i f : crashed (modify s i f) = crashed s. Proof. reflexivity. Qed.
-Lemma clock_tick s : clock (tick_clock s) = S (clock s). Proof. reflexivity. Qed.
-Lemma joins_tick s : joins (tick_clock s) = joins s. Proof. reflexivity. Qed.
-Lemma badwake_tick s : badwake (tick_clock s) = badwake s. Proof. reflexivity. Qed.
-Lemma crashed_tick s : crashed (tick_clock s) = crashed s. Proof. reflexivity. Qed.
-Lemma clock_add_join s j t v : clock (add_join s j t v) = clock s. Proof. reflexivity. Qed.
-Lemma joins_add_join s j t v : joins (add_join s j t v) = (j, t, v, clock s) :: joins s. Proof. reflexivity. Qed.
-Lemma badwake_add_join s j t v : badwake (add_join s j t v) = badwake s. Proof. reflexivity. Qed.
-Lemma clock_set_badwake s : clock (set_badwake s) = clock s. Proof. reflexivity. Qed.
-Lemma joins_set_badwake s : joins (set_badwake s) = joins s. Proof. reflexivity. Qed.
-Lemma badwake_set_badwake s : badwake (set_badwake s) = true. Proof. reflexivity. Qed.
-Lemma clock_set_crashed s : clock (set_crashed s) = clock s. Proof. reflexivity. Qed.
-Lemma joins_set_crashed s : joins (set_crashed s) = joins s. Proof. reflexivity. Qed.
-Lemma badwake_set_crashed s : badwake (set_crashed s) = badwake s. Proof. reflexivity. Qed.
-
-(** the system *)
-Definition is_init (s : state) : Prop := exists n, s = init_state n.
-Definition Reach : state -> Prop := reachable is_init step.
-
-Lemma gt_init n k : gt (init_state n) k = if k =? 0 then thread_main0 else tnone.
-Proof.
-  unfold gt, init_state; cbn [thr].
-  destruct k as [|k]; cbn [nth Nat.eqb]; [reflexivity|].
-  destruct (Nat.lt_ge_cases k (length (repeat tnone n))) as [Hl|Hg].
-  - apply nth_In with (d := tnone) in Hl. now apply repeat_spec in Hl.
-  - now apply nth_overflow.
-Qed.
+(** every schedule from every initial state *)
+Lemma run_reach n sched : Reach (run step sched (init_state n)).
+Proof. apply run_reachable. apply reach_init. now exists n. Qed.
 
 (* ------------------------------------------------------------------------------------------ *)
-(** * Tactics *)
+(** * C01 *)
 
-(** expose one transition: afterwards the goal speaks about an explicit successor state *)
-Ltac break_match H :=
-  repeat (match type of H with
-          | context [match ?x with _ => _ end] =>
-              lazymatch x with
-              | context [match _ with _ => _ end] => fail
-              | _ => destruct x eqn:?
-              end
-          end; try discriminate H).
-
-Ltac step_inv H :=
-  unfold step, step_cfg, call_cfg, tick, cbtick, ret, ret_ok, acquire, do_create, wake in H;
-  cbn [cfg_null_guard cfg_honour_det cfg_now negb andb] in H;
-  break_match H;
-  injection H as H; subst.
-
-Ltac inr_tac :=
-  match goal with
-  | |- (?i < length (thr ?s))%nat =>
-      first [ assumption
-            | rewrite len_modify; inr_tac
-            | rewrite len_add_join; inr_tac
-            | rewrite len_set_badwake; inr_tac
-            | apply main_inr; congruence ]
-  end.
-
-(** normal form of [gt s' k] for a successor state built from [modify]s *)
-Ltac st_norm :=
-  rewrite ?clock_tick, ?joins_tick, ?badwake_tick, ?clock_add_join, ?joins_add_join, ?badwake_add_join,
-          ?clock_set_badwake, ?joins_set_badwake, ?badwake_set_badwake, ?clock_set_crashed, ?joins_set_crashed,
-          ?badwake_set_crashed, ?clock_modify, ?joins_modify, ?badwake_modify.
-Ltac gt_norm :=
-  repeat first [ rewrite gt_tick_clock | rewrite gt_add_join | rewrite gt_set_badwake | rewrite gt_set_crashed
-               | rewrite gt_modify by inr_tac ]; st_norm.
-Ltac gt_norm_in H :=
-  repeat first [ rewrite gt_tick_clock in H | rewrite gt_add_join in H | rewrite gt_set_badwake in H | rewrite gt_set_crashed in H
-               | rewrite gt_modify in H by inr_tac ].
-
-Ltac eqb_cases :=
-  repeat match goal with
-         | |- context [(?a =? ?b)%nat] => destruct (Nat.eqb_spec a b); subst
-         | H : context [(?a =? ?b)%nat] |- _ => destruct (Nat.eqb_spec a b); subst
-         end.
-
-Ltac prj := cbn [status join_thread detached lockh result main cb gh
-                 set_status set_jt set_detached set_lockh set_result set_main set_cb set_gh unlock new_thread
-                 runs garg got retv claimed rdone reaped desc_alloc desc_freed stack_alloc stack_freed stack_sz t_ret t_ready2
-                 g_started g_returned g_claim g_rdone g_reap g_free_stack g_ready2 tnone ghost0 thread_main0] in *.
-
-(* ------------------------------------------------------------------------------------------ *)
-(** * The invariant (DESIGN.md B.7, written out) *)
-
-(** [p] is a program counter of a reaping operation (join / tryjoin / timedjoin / detach) on [t] *)
-Definition reap_pc (p : pc) (t : nat) : bool :=
-  match p with
-  | JLock x | JCheck x | JSusp x | JSpin x | JReap x | TLock x _ | TCheck x _ | TBusy x
-  | DFast x | DLock x | DCheck x | DSet x | DSpin x | DReap x => x =? t
-  | _ => false
-  end.
-
-(** the activity holds [t]'s spinlock *)
-Definition holds_main (p : pc) (j t : nat) : bool :=
-  match p with
-  | JCheck x | TCheck x _ | DCheck x | DSet x => x =? t
-  | FReadJoin => j =? t
-  | _ => false
-  end.
-Definition holds_cb (c : cbpc) (j t : nat) : bool :=
-  match c with
-  | CbJoinSet x => x =? t
-  | CbFreeStack | CbDetTest | CbReady2 => j =? t
-  | _ => false
-  end.
-Definition holds (th : thread) (j t : nat) : bool := holds_main (main th) j t || holds_cb (cb th) j t.
-
-Definition started_pc (p : pc) : bool := match p with NoThread | Created _ => false | _ => true end.
-Definition finishing_pc (p : pc) : bool := match p with FLock | FReadJoin | Finished => true | _ => false end.
-Definition fin_cb (c : cbpc) : bool := match c with CbFreeStack | CbDetTest | CbFreeDesc | CbReady2 => true | _ => false end.
-
-(** the status word is a function of the control state *)
-Definition status_spec (th : thread) : Z :=
-  if finish_complete th && negb (detached th) then ST_FREE_READY2
-  else match main th with JSusp _ => ST_BLOCKED | _ => ST_READY end.
-
-Definition stack_freed_spec (th : thread) : nat :=
-  match main th, cb th with
-  | Finished, (CbDetTest | CbFreeDesc | CbReady2 | CbNone) => 1
-  | _, _ => 0
-  end.
-
-Definition alloc_spec (th : thread) : nat := match main th with NoThread => 0 | _ => 1 end.
-
-Record Inv (s : state) : Prop := mkInv {
-  (* usage contract bookkeeping: one reaper per thread *)
-  i_claim : forall j t, reap_pc (main (gt s j)) t = true ->
-              claimed (gh (gt s t)) = Some j /\ main (gt s t) <> NoThread;
-  i_rdone_c : forall t, rdone (gh (gt s t)) = true -> claimed (gh (gt s t)) <> None;
-  i_rdone_p : forall t j, rdone (gh (gt s t)) = true -> reap_pc (main (gt s j)) t = false;
-  i_det_rdone : forall t, detached (gt s t) = true -> rdone (gh (gt s t)) = true;
-  i_fresh : forall k, main (gt s k) = NoThread -> gt s k = tnone;
-  (* control state *)
-  i_cbmain : forall k x, cb (gt s k) = CbJoinSet x -> main (gt s k) = JSusp x;
-  i_cbfin : forall k, fin_cb (cb (gt s k)) = true -> main (gt s k) = Finished;
-  (* the spinlock: held exactly by the activity between its acquisition and its unlocking store *)
-  i_lock_a : forall t j, lockh (gt s t) = Some j -> holds (gt s j) j t = true;
-  i_lock_b : forall j t, holds (gt s j) j t = true -> lockh (gt s t) = Some j;
-  (* the words *)
-  i_status : forall k, status (gt s k) = status_spec (gt s k);
-  i_cbdet_f : forall k, cb (gt s k) = CbFreeDesc -> detached (gt s k) = true;
-  i_cbdet_r : forall k, cb (gt s k) = CbReady2 -> detached (gt s k) = false;
-  i_dset : forall j t, main (gt s j) = DSet t -> status (gt s t) <> ST_FREE_READY2;
-  i_jreap : forall j t, main (gt s j) = JReap t -> status (gt s t) = ST_FREE_READY2;
-  i_dreap : forall j t, main (gt s j) = DReap t -> status (gt s t) = ST_FREE_READY2;
-  i_jt : forall t j, join_thread (gt s t) = Some j -> before_readjoin (gt s t) = true ->
-           suspended_on (gt s j) t = true;
-  (* the start function *)
-  i_runs0 : forall k, started_pc (main (gt s k)) = false -> runs (gh (gt s k)) = 0 /\ got (gh (gt s k)) = None;
-  i_runs1 : forall k, started_pc (main (gt s k)) = true ->
-              runs (gh (gt s k)) = 1 /\ got (gh (gt s k)) = Some (garg (gh (gt s k)));
-  i_created : forall k cf, main (gt s k) = Created cf -> result (gt s k) = garg (gh (gt s k));
-  i_retv : forall k, finishing_pc (main (gt s k)) = true ->
-             retv (gh (gt s k)) = Some (result (gt s k)) /\ 0 < t_ret (gh (gt s k)) /\ t_ret (gh (gt s k)) < clock s;
-  (* ledger *)
-  i_alloc : forall k, desc_alloc (gh (gt s k)) = alloc_spec (gt s k) /\ stack_alloc (gh (gt s k)) = alloc_spec (gt s k);
-  i_sfreed : forall k, stack_freed (gh (gt s k)) = stack_freed_spec (gt s k);
-  i_freed_eq : forall t, desc_freed (gh (gt s t)) = reaped (gh (gt s t));
-  i_freed : forall t, desc_freed (gh (gt s t)) = 0 \/
-              (desc_freed (gh (gt s t)) = 1 /\ rdone (gh (gt s t)) = true /\ finish_complete (gt s t) = true);
-  i_rdone_f : forall t, rdone (gh (gt s t)) = true -> detached (gt s t) = true \/ desc_freed (gh (gt s t)) = 1;
-  i_det_f : forall t, detached (gt s t) = true -> finish_complete (gt s t) = true -> desc_freed (gh (gt s t)) = 1;
-  (* history *)
-  i_ready2 : forall t, status (gt s t) = ST_FREE_READY2 ->
-               0 < t_ret (gh (gt s t)) /\ t_ret (gh (gt s t)) < t_ready2 (gh (gt s t)) /\ t_ready2 (gh (gt s t)) < clock s;
-  i_ready2_c : forall t, t_ready2 (gh (gt s t)) <> 0 -> status (gt s t) = ST_FREE_READY2;
-  i_joins : forall j t v tm, In (j, t, v, tm) (joins s) ->
-              status (gt s t) = ST_FREE_READY2 /\ retv (gh (gt s t)) = Some v /\
-              t_ready2 (gh (gt s t)) < tm /\ tm < clock s;
-  i_badwake : badwake s = false
-}.
-
-Lemma Inv_init n : Inv (init_state n).
+(** the start function runs at most once, exactly once for a finished thread, with the creation argument *)
+Lemma runs_once s t : Reach s ->
+  runs (gh (gt s t)) <= 1 /\
+  (status (gt s t) = ST_FREE_READY2 -> runs (gh (gt s t)) = 1) /\
+  (started_pc (main (gt s t)) = true -> runs (gh (gt s t)) = 1 /\ got (gh (gt s t)) = Some (garg (gh (gt s t)))) /\
+  (forall a, got (gh (gt s t)) = Some a -> a = garg (gh (gt s t))).
 Proof.
-  constructor; intros; rewrite ?gt_init in *;
-    repeat match goal with
-           | H : context [if (?a =? ?b) then _ else _] |- _ => destruct (Nat.eqb_spec a b); subst
-           | |- context [if (?a =? ?b) then _ else _] => destruct (Nat.eqb_spec a b); subst
-           end;
-    cbn in *; try discriminate; try tauto; try (split; intros; try discriminate; try tauto; auto);
-    try (intuition discriminate); try lia.
+  intros HR. pose proof (Inv_reach s HR) as HI.
+  pose proof (i_runs0 _ HI t) as H0. pose proof (i_runs1 _ HI t) as H1.
+  destruct (started_pc (main (gt s t))) eqn:E.
+  - destruct (H1 eq_refl) as [R G]. repeat split; try lia; auto.
+    intros a Ha. congruence.
+  - destruct (H0 eq_refl) as [R G]. repeat split; try lia; try discriminate.
+    + intros Hs. destruct (d_status3 _ _ HI Hs) as (M & _). rewrite M in E. discriminate E.
+    + intros a Ha. congruence.
+Qed.
+
+(** a registered joiner is suspended (context saved, registering callback complete) with status
+    BLOCKED as long as its target has not executed finish.readjoin; the finisher never makes
+    runnable a thread whose context is not saved *)
+Lemma no_resume_before_save s : Reach s ->
+  (forall t j, join_thread (gt s t) = Some j -> before_readjoin (gt s t) = true ->
+     suspended_on (gt s j) t = true /\ status (gt s j) = ST_BLOCKED) /\
+  badwake s = false.
+Proof.
+  intros HR. pose proof (Inv_reach s HR) as HI. split; [|exact (i_badwake _ HI)].
+  intros t j Hj Hb. pose proof (i_jt _ HI t j Hj Hb) as Hs. split; [exact Hs|].
+  rewrite (i_status _ HI j). unfold suspended_on in Hs. unfold status_spec, finish_complete.
+  destruct (main (gt s j)); try discriminate Hs. reflexivity.
+Qed.
+
+(** the finish.readjoin step of a reachable state always finds its waiter suspended *)
+Lemma readjoin_wakes_suspended s j w : Reach s ->
+  main (gt s j) = FReadJoin -> join_thread (gt s j) = Some w ->
+  suspended_on (gt s w) j = true /\ wake s w = modify s w (fun y => set_main (set_status y ST_READY) (JSpin j)).
+Proof.
+  intros HR Hm Hj. pose proof (Inv_reach s HR) as HI.
+  assert (Hb : before_readjoin (gt s j) = true) by (unfold before_readjoin; now rewrite Hm).
+  pose proof (i_jt _ HI j w Hj Hb) as Hs. split; [exact Hs|].
+  unfold suspended_on in Hs. unfold wake.
+  destruct (main (gt s w)); try discriminate Hs. destruct (cb (gt s w)); try discriminate Hs.
+  apply Nat.eqb_eq in Hs. now subst.
+Qed.
+
+(** every completed join: the target's function returned (or called exit) at [t_ret], its
+    FREE_READY2 store happened at [t_ready2], strictly later, and strictly before the reaping step;
+    the value read is the value returned *)
+Lemma join_after_finish s j t v tm : Reach s -> In (j, t, v, tm) (joins s) ->
+  0 < t_ret (gh (gt s t)) /\ t_ret (gh (gt s t)) < t_ready2 (gh (gt s t)) /\ t_ready2 (gh (gt s t)) < tm /\
+  tm < clock s /\ retv (gh (gt s t)) = Some v /\ status (gt s t) = ST_FREE_READY2.
+Proof.
+  intros HR Hin. pose proof (Inv_reach s HR) as HI.
+  destruct (i_joins _ HI j t v tm Hin) as (S3 & Rv & T2 & Tm).
+  destruct (i_ready2 _ HI t S3) as (A & B & C). repeat split; auto.
+Qed.
+
+(** the reaping step of a join / successful tryjoin / timedjoin: it is enabled only when the
+    target has published FREE_READY2, delivers exactly the value the target returned, and is the
+    step that appends the completed join to the log *)
+Lemma join_value s j t s' : Reach s -> main (gt s j) = JReap t -> step s (j, ETick) = Some s' ->
+  exists v, retv (gh (gt s t)) = Some v /\ result (gt s t) = v /\
+            main (gt s' j) = Done 0 (Some v) /\ joins s' = (j, t, v, clock s) :: joins s /\
+            status (gt s t) = ST_FREE_READY2 /\
+            0 < t_ret (gh (gt s t)) /\ t_ret (gh (gt s t)) < t_ready2 (gh (gt s t)) /\ t_ready2 (gh (gt s t)) < clock s.
+Proof.
+  intros HR Hm H. pose proof (Inv_reach s HR) as HI.
+  pose proof (i_jreap _ HI j t Hm) as S3.
+  destruct (d_status3 _ _ HI S3) as (Mt & Ct & Dt).
+  assert (Hf : finishing_pc (main (gt s t)) = true) by now rewrite Mt.
+  destruct (i_retv _ HI t Hf) as (Rv & _).
+  destruct (i_ready2 _ HI t S3) as (A & B & C).
+  exists (result (gt s t)). split; [exact Rv|]. split; [reflexivity|].
+  assert (Hj : j < length (thr s)) by (apply main_inr; congruence).
+  assert (Ht : t < length (thr s)) by (apply main_inr; congruence).
+  unfold step, step_cfg in H. destruct (crashed s); [discriminate|].
+  unfold tick in H. rewrite Hm in H. injection H as <-.
+  rewrite gt_tick_clock, joins_tick, joins_modify, joins_add_join, clock_modify.
+  rewrite gt_modify by (rewrite len_add_join, len_modify; exact Hj).
+  rewrite Nat.eqb_refl. cbn [main set_main]. repeat split; auto.
+Qed.
+
+(** the two time stamps are what their names say: [t_ret] is written only by the thread's own
+    Return / Exit call (the moment its function returns or calls myth_exit), with the current clock,
+    together with the result word; [t_ready2] only by its own finish.cb.ready2 step, which is the
+    store of FREE_READY2 *)
+Lemma stamps_sound s j e s' : Reach s -> step s (j, e) = Some s' -> forall k,
+  (t_ret (gh (gt s' k)) <> t_ret (gh (gt s k)) ->
+     k = j /\ (e = ECall (Return (result (gt s' k))) \/ e = ECall (Exit (result (gt s' k)))) /\
+     t_ret (gh (gt s' k)) = clock s /\ retv (gh (gt s' k)) = Some (result (gt s' k))) /\
+  (t_ready2 (gh (gt s' k)) <> t_ready2 (gh (gt s k)) ->
+     k = j /\ e = ECbTick /\ cb (gt s j) = CbReady2 /\ t_ready2 (gh (gt s' k)) = clock s /\
+     status (gt s' k) = ST_FREE_READY2).
+Proof.
+  intros HR H. pose proof (Inv_reach s HR) as HI. intros k. step_inv H.
+  all: crunchT HI ltac:(idtac).
 Qed.
 
 (* ------------------------------------------------------------------------------------------ *)
-(** * Preservation: tactics *)
+(** * Attribute objects (C01_attr_equiv, C13_detached_attr) *)
 
-Inductive Mk2 (x y : nat) : Prop := mk2.
-Inductive Mk1 (x : nat) : Prop := mk1.
-Ltac forall_nat2 tac :=
-  repeat match goal with
-         | x : nat, y : nat |- _ =>
-             lazymatch goal with _ : Mk2 x y |- _ => fail | _ => idtac end; tac x y; pose proof (mk2 x y)
-         end;
-  repeat match goal with H : Mk2 _ _ |- _ => clear H end.
-Ltac forall_nat1 tac :=
-  repeat match goal with
-         | x : nat |- _ =>
-             lazymatch goal with _ : Mk1 x |- _ => fail | _ => idtac end; tac x; pose proof (mk1 x)
-         end;
-  repeat match goal with H : Mk1 _ |- _ => clear H end.
-Ltac forall_nat tac2 := forall_nat2 tac2; forall_nat1 ltac:(fun x => tac2 x x).
+(** an attribute object prepared only with the public attribute functions *)
+Inductive prepared (g : globals) : attr -> Prop :=
+| prep_init a0 : prepared g (attr_init g a0)
+| prep_det a v : prepared g a -> prepared g (attr_setdetachstate a v)
+| prep_ss a v : prepared g a -> prepared g (attr_setstacksize a v)
+| prep_guard a v : prepared g a -> prepared g (attr_setguardsize a v)
+| prep_stack a addr v : prepared g a -> prepared g (attr_setstack a addr v)
+| prep_cf a v : prepared g a -> prepared g (attr_setchildfirst a v).
 
-Ltac rew_pcs :=
-  repeat match goal with
-         | H : main (gt _ _) = _ |- _ => progress (rewrite H in * )
-         | H : cb (gt _ _) = _ |- _ => progress (rewrite H in * )
-         | H : join_thread (gt _ _) = _ |- _ => progress (rewrite H in * )
-         | H : detached (gt _ _) = _ |- _ => progress (rewrite H in * )
-         | H : gt _ _ = tnone |- _ => progress (rewrite H in * )
-         end.
+Lemma prepared_pthread g det addr size : prepared g (pthread_attr_to_myth g det addr size).
+Proof. unfold pthread_attr_to_myth. apply prep_stack, prep_det, prep_init. Qed.
 
-Lemma pc_is_nothread_true p : pc_is_nothread p = true -> p = NoThread.
-Proof. destruct p; cbn; congruence. Qed.
-Lemma pc_is_nothread_false p : pc_is_nothread p = false -> p <> NoThread.
-Proof. destruct p; cbn; congruence. Qed.
-Lemma opt_is_none_true {A} (o : option A) : opt_is_none o = true -> o = None.
-Proof. destruct o; cbn; congruence. Qed.
-Lemma opt_is_none_false {A} (o : option A) : opt_is_none o = false -> o <> None.
-Proof. destruct o; cbn; congruence. Qed.
-Lemma fin3 : is_finished ST_FREE_READY2 = true.
+(** every field is defined, no custom data is requested *)
+Lemma prepared_fields g a : prepared g a ->
+  exists sa ss gs ds cf, a = mkAttr (Val sa) (Val ss) (Val gs) (Val ds) (Val cf) (Val 0%Z) (Val 0%Z).
+Proof.
+  induction 1 as [a0|a v _ IH|a v _ IH|a v _ IH|a addr v _ IH|a v _ IH];
+    [|destruct IH as (sa & ss & gs & ds & cf & ->)..]; cbn; repeat eexists.
+Qed.
+
+(** creation reads exactly the requested settings; it never executes undefined behaviour *)
+Lemma prepared_settings g a : prepared g a ->
+  exists ss ds cf, a_stacksize a = Val ss /\ a_detachstate a = Val ds /\ a_child_first a = Val cf /\
+    create_settings (Some a) = Some (mkSettings ss (negb (cf =? 0)%Z) (negb (ds =? 0)%Z)).
+Proof.
+  intros H. destruct (prepared_fields g a H) as (sa & ss & gs & ds & cf & ->).
+  exists ss, ds, cf. cbn. auto.
+Qed.
+
+Lemma attr_init_settings g a0 :
+  create_settings (Some (attr_init g a0)) = Some (mkSettings (g_stacksize g) (negb (g_child_first g =? 0)%Z) false).
 Proof. reflexivity. Qed.
 
-Ltac eqb_hyps :=
-  repeat match goal with
-         | H : (_ =? _) = true |- _ => apply Nat.eqb_eq in H; subst
-         | H : (_ =? _) = false |- _ => apply Nat.eqb_neq in H
-         | H : (_ <? _) = true |- _ => apply Nat.ltb_lt in H
-         | H : _ && _ = true |- _ => apply andb_prop in H; destruct H
-         | H : pc_is_nothread _ = true |- _ => apply pc_is_nothread_true in H
-         | H : pc_is_nothread _ = false |- _ => apply pc_is_nothread_false in H
-         | H : opt_is_none _ = true |- _ => apply opt_is_none_true in H
-         | H : opt_is_none _ = false |- _ => apply opt_is_none_false in H
-         | H : (_ =? _)%Z = true |- _ => apply Z.eqb_eq in H
-         | H : (_ =? _)%Z = false |- _ => apply Z.eqb_neq in H
-         | H : negb _ = true |- _ => apply negb_true_iff in H
-         | H : negb _ = false |- _ => apply negb_false_iff in H
-         end.
+(** the descriptor that creation with settings [st] initialises, compared with default creation *)
+Definition with_settings (st : settings) (creator : nat) (th : thread) : thread :=
+  let g := gh th in
+  set_gh (set_main (set_detached th (s_det st)) (Created (s_cf st)))
+    (mkGhost (runs g) (garg g) (got g) (retv g) (if s_det st then Some creator else None) (s_det st) (reaped g)
+             (desc_alloc g) (desc_freed g) (stack_alloc g) (stack_freed g) (s_stack st) (t_ret g) (t_ready2 g)).
 
-Ltac simp :=
-  unfold holds, status_spec, finish_complete, suspended_on, before_readjoin, stack_freed_spec, alloc_spec in *;
-  cbn [reap_pc holds_main holds_cb started_pc finishing_pc fin_cb orb andb negb
-       pc_is_nothread exists_thread opt_is_none In
-       status join_thread detached lockh result main cb gh
-       set_status set_jt set_detached set_lockh set_result set_main set_cb set_gh unlock new_thread
-       runs garg got retv claimed rdone reaped desc_alloc desc_freed stack_alloc stack_freed stack_sz t_ret t_ready2
-       g_started g_returned g_claim g_rdone g_reap g_free_stack g_ready2 tnone ghost0 thread_main0] in *.
+(** creation through an attribute object whose fields are all defined (in particular one prepared
+    with the public functions), with or without the NULL id pointer: never undefined behaviour, and the
+    same state as default creation except that the new descriptor carries the requested settings *)
+Lemma create_equiv s j c a nullid argv st s1 :
+  create_settings (Some a) = Some st ->
+  step s (j, ECall (Create c (Some a) nullid argv)) = Some s1 ->
+  exists s2, step s (j, ECall (Create c None false argv)) = Some s2 /\
+    crashed s1 = false /\ clock s1 = clock s2 /\ joins s1 = joins s2 /\ badwake s1 = badwake s2 /\
+    length (thr s1) = length (thr s2) /\
+    forall k, gt s1 k = if k =? c then with_settings st j (gt s2 k) else gt s2 k.
+Proof.
+  intros Hst H. unfold step, step_cfg in *. destruct (crashed s) eqn:Ec; [discriminate|].
+  unfold call_cfg in *. destruct (main (gt s j)) eqn:Em; try discriminate.
+  destruct (cb (gt s j)) eqn:Ecb; try discriminate.
+  unfold do_create in *. rewrite Hst in H.
+  destruct ((c <? length (thr s)) && pc_is_nothread (main (gt s c))) eqn:Eg; [|discriminate].
+  apply andb_prop in Eg. destruct Eg as [Hc Hn]. apply Nat.ltb_lt in Hc. apply pc_is_nothread_true in Hn.
+  cbn [cfg_null_guard cfg_honour_det cfg_now negb andb] in *.
+  rewrite andb_false_r in H. cbn [andb] in *. injection H as <-.
+  eexists. split; [reflexivity|].
+  assert (Hj : j < length (thr s)) by (apply main_inr; congruence).
+  assert (Hjc : j <> c) by (intros ->; congruence).
+  repeat split; try reflexivity.
+  all: try (cbn [thr tick_clock]; now rewrite !len_modify).
+  { now rewrite crashed_tick, !crashed_modify. }
+  intros k. rewrite !gt_tick_clock.
+    rewrite !(gt_modify _ j) by (rewrite len_modify; exact Hj).
+    rewrite !(gt_modify _ c) by exact Hc.
+  destruct (Nat.eqb_spec k j) as [->|Hkj].
+  - destruct (Nat.eqb_spec j c) as [->|_]; [congruence|reflexivity].
+  - destruct (Nat.eqb_spec k c) as [->|Hkc]; [|reflexivity].
+    unfold with_settings, new_thread, default_settings. cbn. reflexivity.
+Qed.
 
-Ltac bool_props := rewrite ?orb_true_iff, ?orb_false_iff, ?andb_true_iff in *.
+(** before commit 85e96a1 attr_init left the custom-data fields as they were: creation with such an
+    attribute uses an uninitialised length *)
+Lemma attr_prefix_refuted :
+  exists g s', create_settings (Some (attr_init_prefix g attr_dirty)) = None /\
+    step (init_state 1) (0, ECall (Create 1 (Some (attr_init_prefix g attr_dirty)) false 7%Z)) = Some s' /\
+    crashed s' = true.
+Proof. exists (mkGlobals 131072 0 1). eexists. repeat split; vm_compute; reflexivity. Qed.
 
-Ltac finish_core :=
-  intros; simp; rew_pcs; simp; rewrite ?Nat.eqb_refl in *; eqb_hyps; simp; bool_props.
-Ltac finish := finish_core; solve [intuition (try congruence; try lia)].
-Ltac finish_dbg := finish_core; try solve [intuition (try congruence; try lia)].
+(** before commit c226887 the id store was unconditional: the documented NULL id crashes *)
+Lemma nullid_prefix_refuted :
+  exists s' s'', step_cfg cfg_prefix_nullid (init_state 1) (0, ECall (Create 1 None true 7%Z)) = Some s' /\ crashed s' = true /\
+    step (init_state 1) (0, ECall (Create 1 None true 7%Z)) = Some s'' /\ crashed s'' = false.
+Proof. do 2 eexists. repeat split; vm_compute; reflexivity. Qed.
 
-(** a pending callback determines the main program counter *)
-Ltac cb_main HI :=
-  repeat match goal with
-  | H : cb (gt ?s ?j) = CbJoinSet ?t |- _ =>
-      lazymatch goal with _ : main (gt s j) = _ |- _ => fail | _ => idtac end;
-      pose proof (i_cbmain _ HI j t H)
-  | H : cb (gt ?s ?j) = ?c |- _ =>
-      lazymatch goal with _ : main (gt s j) = _ |- _ => fail | _ => idtac end;
-      assert (main (gt s j) = Finished) by (apply (i_cbfin _ HI j); rewrite H; reflexivity)
+(* ------------------------------------------------------------------------------------------ *)
+(** * C13 *)
+
+(** reaped at most once; record and stack released at most once; the stack is released when the
+    finish is complete; the record is released exactly when the finish is complete and a reaping
+    request (join / tryjoin / timedjoin success, detach, detached attribute) has completed - whatever
+    the order of the two *)
+Lemma reaped_once s t : Reach s ->
+  reaped (gh (gt s t)) <= 1 /\ desc_freed (gh (gt s t)) = reaped (gh (gt s t)) /\ stack_freed (gh (gt s t)) <= 1 /\
+  (finish_complete (gt s t) = true -> stack_freed (gh (gt s t)) = 1) /\
+  (finish_complete (gt s t) = true -> rdone (gh (gt s t)) = true -> reaped (gh (gt s t)) = 1) /\
+  (reaped (gh (gt s t)) = 1 -> finish_complete (gt s t) = true /\ rdone (gh (gt s t)) = true) /\
+  (stack_freed (gh (gt s t)) = 1 -> main (gt s t) = Finished).
+Proof.
+  intros HR. pose proof (Inv_reach s HR) as HI.
+  pose proof (i_freed_eq _ HI t) as E. pose proof (i_freed _ HI t) as F.
+  pose proof (i_sfreed _ HI t) as S. pose proof (i_rdone_f _ HI t) as RF. pose proof (i_det_f _ HI t) as DF.
+  rewrite <- E.
+  assert (S1 : stack_freed (gh (gt s t)) <= 1 /\ (finish_complete (gt s t) = true -> stack_freed (gh (gt s t)) = 1) /\
+               (stack_freed (gh (gt s t)) = 1 -> main (gt s t) = Finished)).
+  { rewrite S. unfold stack_freed_spec, finish_complete.
+    destruct (main (gt s t)); try (repeat split; (lia || discriminate)).
+    destruct (cb (gt s t)); repeat split; try lia; try discriminate; auto. }
+  destruct S1 as (S1 & S2 & S3).
+  split; [destruct F as [F|(F & _)]; lia|].
+  split; [reflexivity|]. split; [exact S1|]. split; [exact S2|].
+  split. { intros Hf Hr. destruct (RF Hr) as [D|D]; [now apply DF|exact D]. }
+  split. { intros H1. destruct F as [F|(_ & F1 & F2)]; [lia|auto]. }
+  exact S3.
+Qed.
+
+(** a record is never released while the thread's status is not FREE_READY2, except by the
+    finisher of a detached thread, which decided so under the descriptor lock *)
+Lemma free_guard s j e s' t : Reach s -> step s (j, e) = Some s' ->
+  desc_freed (gh (gt s' t)) <> desc_freed (gh (gt s t)) ->
+  desc_freed (gh (gt s' t)) = S (desc_freed (gh (gt s t))) /\ desc_freed (gh (gt s t)) = 0 /\
+  ((e = ETick /\ (main (gt s j) = JReap t \/ main (gt s j) = DReap t) /\ status (gt s t) = ST_FREE_READY2 /\
+    claimed (gh (gt s t)) = Some j) \/
+   (e = ECbTick /\ j = t /\ cb (gt s t) = CbFreeDesc /\ detached (gt s t) = true /\ main (gt s t) = Finished)).
+Proof.
+  intros HR H. pose proof (Inv_reach s HR) as HI. step_inv H.
+  all: crunchT HI ltac:(pose proof (i_jreap _ HI j t); pose proof (i_dreap _ HI j t); pose proof (i_cbdet_f _ HI j);
+                        pose proof (i_claim _ HI j t); pose proof (i_freed _ HI t); pose proof (i_rdone_p _ HI t j)).
+Qed.
+
+(** tryjoin / timedjoin attempt, at the locked test: the outcome is decided by the target's status
+    word alone - not finished: unlock, nothing else of the target changes, EBUSY (retry for
+    timedjoin); finished: exactly the step join makes from its own locked test *)
+Lemma tryjoin_decision s j t timed s' : Reach s -> main (gt s j) = TCheck t timed -> step s (j, ETick) = Some s' ->
+  lockh (gt s t) = Some j /\
+  (is_finished (status (gt s t)) = false ->
+     main (gt s' j) = (if timed then TBusy t else Done EBUSY None) /\
+     ret_ok s' j EBUSY = true /\ joined s' j = None /\
+     status (gt s' t) = status (gt s t) /\ join_thread (gt s' t) = join_thread (gt s t) /\
+     detached (gt s' t) = detached (gt s t) /\ result (gt s' t) = result (gt s t) /\
+     reaped (gh (gt s' t)) = reaped (gh (gt s t)) /\ desc_freed (gh (gt s' t)) = desc_freed (gh (gt s t)) /\
+     (t <> j -> main (gt s' t) = main (gt s t)) /\ cb (gt s' t) = cb (gt s t) /\
+     lockh (gt s' t) = None) /\
+  (is_finished (status (gt s t)) = true ->
+     main (gt s' j) = JSpin t /\ ret_ok s' j EBUSY = false /\
+     forall sj sj', (forall k, gt sj k = if k =? j then set_main (gt s j) (JCheck t) else gt s k) ->
+                    length (thr sj) = length (thr s) -> crashed sj = false ->
+                    step sj (j, ETick) = Some sj' -> forall k, gt sj' k = gt s' k).
+Proof.
+  intros HR Hm H. pose proof (Inv_reach s HR) as HI.
+  assert (Hj : j < length (thr s)) by (apply main_inr; congruence).
+  destruct (i_claim _ HI j t) as [Hc Ht]; [rewrite Hm; cbn; apply Nat.eqb_refl|].
+  apply main_inr in Ht.
+  assert (Hl : lockh (gt s t) = Some j).
+  { apply (i_lock_b _ HI). unfold holds. rewrite Hm. cbn. now rewrite Nat.eqb_refl. }
+  split; [exact Hl|].
+  unfold step, step_cfg in H. destruct (crashed s) eqn:Ec; [discriminate|].
+  unfold tick in H. rewrite Hm in H.
+  destruct (is_finished (status (gt s t))) eqn:Ef.
+  - injection H as <-. split; [discriminate|]. intros _.
+    rewrite gt_tick_clock, gt_modify by (rewrite len_modify; exact Hj). rewrite Nat.eqb_refl.
+    split; [reflexivity|]. split.
+    { unfold ret_ok. rewrite gt_tick_clock, gt_modify by (rewrite len_modify; exact Hj). rewrite Nat.eqb_refl. reflexivity. }
+    intros sj sj' Hsj Hlen Hcr Hst k.
+    assert (Hmj : main (gt sj j) = JCheck t) by (rewrite Hsj, Nat.eqb_refl; reflexivity).
+    assert (Hstt : status (gt sj t) = status (gt s t)).
+    { rewrite Hsj. destruct (Nat.eqb_spec t j) as [->|_]; reflexivity. }
+    unfold step, step_cfg in Hst. rewrite Hcr in Hst. unfold tick in Hst. rewrite Hmj, Hstt, Ef in Hst.
+    injection Hst as <-.
+    rewrite !gt_tick_clock.
+    rewrite !(gt_modify _ j) by (rewrite len_modify; lia).
+    rewrite !(gt_modify _ t) by lia.
+    rewrite !Hsj. rewrite Nat.eqb_refl.
+    repeat match goal with |- context [(?a =? ?b)] => destruct (Nat.eqb_spec a b) end;
+      subst; try reflexivity; try congruence.
+  - split; [|discriminate]. intros _.
+    destruct timed; injection H as <-;
+      rewrite ?gt_tick_clock; unfold ret_ok, joined; rewrite ?gt_tick_clock;
+      rewrite !(gt_modify _ j) by (rewrite len_modify; exact Hj); rewrite !(gt_modify _ t) by exact Ht;
+      rewrite !Nat.eqb_refl;
+      destruct (Nat.eqb_spec t j) as [->|Hn]; rewrite ?Nat.eqb_refl; cbn; repeat split; try reflexivity; try congruence.
+Qed.
+
+(** detach: every step of the operation leaves every word of every descriptor alone, except the
+    lock word of the target while it tests, the [detached] flag of a target that has not finished
+    (written under the lock), and the release of the record of a target that has published
+    FREE_READY2.  In particular the running target's status, join_thread, result, control state and
+    stack are untouched. *)
+Lemma detach_harmless s j t s' : Reach s -> detach_pc (main (gt s j)) t = true -> step s (j, ETick) = Some s' ->
+  forall k,
+    status (gt s' k) = status (gt s k) /\ join_thread (gt s' k) = join_thread (gt s k) /\
+    result (gt s' k) = result (gt s k) /\ cb (gt s' k) = cb (gt s k) /\
+    runs (gh (gt s' k)) = runs (gh (gt s k)) /\ retv (gh (gt s' k)) = retv (gh (gt s k)) /\
+    stack_freed (gh (gt s' k)) = stack_freed (gh (gt s k)) /\
+    (k <> j -> main (gt s' k) = main (gt s k)) /\
+    (detached (gt s' k) <> detached (gt s k) ->
+       k = t /\ main (gt s j) = DSet t /\ detached (gt s' k) = true /\ status (gt s t) <> ST_FREE_READY2 /\
+       lockh (gt s t) = Some j) /\
+    (desc_freed (gh (gt s' k)) <> desc_freed (gh (gt s k)) ->
+       k = t /\ main (gt s j) = DReap t /\ status (gt s t) = ST_FREE_READY2) /\
+    (lockh (gt s' k) <> lockh (gt s k) -> k = t).
+Proof.
+  intros HR Hd H. pose proof (Inv_reach s HR) as HI. intros k.
+  unfold detach_pc in Hd.
+  destruct (main (gt s j)) eqn:Em; try discriminate Hd; apply Nat.eqb_eq in Hd; subst;
+    (unfold step, step_cfg in H; destruct (crashed s) eqn:Ec; [discriminate|];
+     unfold tick, acquire in H; rewrite Em in H; break_match H; injection H as <-).
+  all: crunchT HI ltac:(pose proof (i_dset _ HI j t); pose proof (i_dreap _ HI j t); pose proof (i_lock_b _ HI j t)).
+Qed.
+
+(** at quiescence (no activity can move) no callback is pending, every thread whose code is over
+    has released its stack, the others own theirs; every record is either still owned by its thread
+    (not finished, or finished and not yet reaped: no reaping request completed) or released exactly
+    once; nothing is lost *)
+Lemma quiescent_ledger s : Reach s -> quiescent s -> forall k, main (gt s k) <> NoThread ->
+  cb (gt s k) = CbNone /\
+  desc_alloc (gh (gt s k)) = 1 /\ stack_alloc (gh (gt s k)) = 1 /\
+  ((main (gt s k) <> Finished /\ stack_freed (gh (gt s k)) = 0 /\ desc_freed (gh (gt s k)) = 0) \/
+   (main (gt s k) = Finished /\ stack_freed (gh (gt s k)) = 1 /\
+    ((rdone (gh (gt s k)) = false /\ desc_freed (gh (gt s k)) = 0 /\ status (gt s k) = ST_FREE_READY2) \/
+     (rdone (gh (gt s k)) = true /\ desc_freed (gh (gt s k)) = 1 /\ reaped (gh (gt s k)) = 1)))).
+Proof.
+  intros HR HQ k Hk. pose proof (Inv_reach s HR) as HI.
+  assert (Hcb : cb (gt s k) = CbNone).
+  { destruct (HQ k) as [_ Hc]. unfold cbtick in Hc. destruct (cb (gt s k)); try reflexivity; try discriminate Hc.
+    destruct (detached (gt s k)); discriminate Hc. }
+  split; [exact Hcb|].
+  destruct (i_alloc _ HI k) as [A1 A2]. unfold alloc_spec in *.
+  destruct (reaped_once s k HR) as (R1 & R2 & R3 & R4 & R5 & R6 & R7).
+  pose proof (i_sfreed _ HI k) as SF. unfold stack_freed_spec in SF. rewrite Hcb in SF.
+  pose proof (i_freed _ HI k) as F. unfold finish_complete in *. rewrite Hcb in *.
+  destruct (main (gt s k)) eqn:Em; try congruence;
+    try (split; [exact A1|]; split; [exact A2|]; left; split; [discriminate|]; split; [exact SF|];
+         destruct F as [F|(_ & _ & F)]; [exact F|discriminate F]).
+  split; [exact A1|]. split; [exact A2|]. right. split; [reflexivity|]. split; [exact SF|].
+  destruct (rdone (gh (gt s k))) eqn:Er.
+  - right. split; [reflexivity|]. rewrite R2. split; apply R5; reflexivity.
+  - left. split; [reflexivity|]. split; [destruct F as [F|(_ & F & _)]; [exact F|discriminate F]|].
+    destruct (d_status_fin _ _ HI Em Hcb) as [D|D]; [|exact D].
+    rewrite (i_det_rdone _ HI k D) in Er. discriminate Er.
+Qed.
+
+(** all steps of a schedule, each of which must be enabled *)
+Fixpoint steps (l : list (nat * ev)) (s : state) : option state :=
+  match l with
+  | [] => Some s
+  | a :: r => match step s a with Some s' => steps r s' | None => None end
   end.
 
-(** an unused position is exactly [tnone] *)
-Ltac use_fresh HI :=
-  repeat match goal with
-  | H : main (gt ?s ?c) = NoThread |- _ =>
-      lazymatch goal with _ : gt s c = tnone |- _ => fail | _ => idtac end;
-      pose proof (i_fresh _ HI c H)
-  end.
+(** creation with the detached attribute = default-attribute creation followed at once by
+    detach (fast test, lock, locked test, store, unlock): every descriptor ends up word for word
+    the same, ghost fields included; only the clock has advanced further *)
+Definition detach_after_create (p c : nat) (a' : option attr) (nullid : bool) (argv : Z) : list (nat * ev) :=
+  [(p, ECall (Create c a' nullid argv)); (p, ERet 0%Z); (p, ECall (Detach c));
+   (p, ETick); (p, ETick); (p, ETick); (p, ETick)].
 
-(** the target of the operation in progress exists, hence is in range *)
-Ltac target_inr HI :=
-  repeat match goal with
-  | H : main (gt ?s ?j) = ?p |- _ =>
-      let t := match p with
-               | JLock ?t => t | JCheck ?t => t | JSpin ?t => t | JReap ?t => t | TLock ?t _ => t | TCheck ?t _ => t
-               | TBusy ?t => t | DFast ?t => t | DLock ?t => t | DCheck ?t => t | DSet ?t => t | DSpin ?t => t | DReap ?t => t
-               | JSusp ?t => t
-               end in
-      lazymatch goal with _ : t < length (thr s) |- _ => fail | _ => idtac end;
-      assert (t < length (thr s)) by (apply main_inr; apply (i_claim _ HI j t); rewrite H; cbn [reap_pc]; apply Nat.eqb_refl)
-  end.
+Lemma detached_attr s p c a a' nullid argv ss cf s1 :
+  Reach s ->
+  create_settings a = Some (mkSettings ss cf true) ->
+  create_settings a' = Some (mkSettings ss cf false) ->
+  step s (p, ECall (Create c a nullid argv)) = Some s1 ->
+  exists s2, steps (detach_after_create p c a' nullid argv) s = Some s2 /\
+    crashed s1 = false /\ crashed s2 = false /\ joins s2 = joins s1 /\ badwake s2 = badwake s1 /\
+    forall k, gt s2 k = gt s1 k.
+Proof.
+  intros HR Hst Hst' H. pose proof (Inv_reach s HR) as HI.
+  unfold step, step_cfg in H. destruct (crashed s) eqn:Ec; [discriminate|].
+  unfold call_cfg in H. destruct (main (gt s p)) eqn:Em; try discriminate.
+  destruct (cb (gt s p)) eqn:Ecb; try discriminate.
+  unfold do_create in H. rewrite Hst in H.
+  destruct ((c <? length (thr s)) && pc_is_nothread (main (gt s c))) eqn:Eg; [|discriminate].
+  pose proof Eg as Eg'. apply andb_prop in Eg'. destruct Eg' as [Hc Hn].
+  apply Nat.ltb_lt in Hc. apply pc_is_nothread_true in Hn.
+  cbn [cfg_null_guard cfg_honour_det cfg_now negb andb s_det s_cf s_stack] in H.
+  rewrite andb_false_r in H. injection H as <-.
+  assert (Hp : p < length (thr s)) by (apply main_inr; congruence).
+  assert (Hpc : p <> c) by (intros ->; congruence).
+  assert (Epc : (p =? c) = false) by now apply Nat.eqb_neq.
+  assert (Ecp : (c =? p) = false) by (apply Nat.eqb_neq; congruence).
+  pose proof (i_fresh _ HI c Hn) as Hf.
+  set (st' := mkSettings ss cf false).
+  (* the seven steps *)
+  set (t1 := tick_clock (modify (modify s c (fun _ => new_thread p st' false argv)) p (fun th => set_main th (Done 0 None)))).
+  assert (E1 : step s (p, ECall (Create c a' nullid argv)) = Some t1).
+  { unfold step, step_cfg. rewrite Ec. unfold call_cfg. rewrite Em, Ecb. unfold do_create. rewrite Eg, Hst'.
+    cbn [cfg_null_guard cfg_honour_det cfg_now negb andb s_det]. rewrite andb_false_r. reflexivity. }
+  assert (L1 : length (thr t1) = length (thr s)) by (unfold t1; cbn [thr tick_clock]; now rewrite !len_modify).
+  assert (P1 : gt t1 p = set_main (gt s p) (Done 0 None)).
+  { unfold t1. rewrite gt_tick_clock, gt_modify by (rewrite len_modify; exact Hp).
+    rewrite Nat.eqb_refl, gt_modify by exact Hc. now rewrite Epc. }
+  assert (C1 : gt t1 c = new_thread p st' false argv).
+  { unfold t1. rewrite gt_tick_clock, gt_modify by (rewrite len_modify; exact Hp).
+    rewrite Ecp, gt_modify by exact Hc. now rewrite Nat.eqb_refl. }
+  assert (K1 : forall k, k <> p -> k <> c -> gt t1 k = gt s k).
+  { intros k H1 H2. unfold t1. rewrite gt_tick_clock, gt_modify by (rewrite len_modify; exact Hp).
+    rewrite (proj2 (Nat.eqb_neq k p) H1), gt_modify by exact Hc. now rewrite (proj2 (Nat.eqb_neq k c) H2). }
+  assert (X1 : crashed t1 = false /\ joins t1 = joins s /\ badwake t1 = badwake s) by (unfold t1; auto).
+  clearbody t1.
+  (* a generic description of "p's main pc changes, c's record changes" *)
+  assert (STEP : forall t f g, length (thr t) = length (thr s) ->
+            let t' := tick_clock (modify (modify t c g) p f) in
+            length (thr t') = length (thr s) /\ gt t' p = f (gt t p) /\ gt t' c = g (gt t c) /\
+            (forall k, k <> p -> k <> c -> gt t' k = gt t k) /\
+            crashed t' = crashed t /\ joins t' = joins t /\ badwake t' = badwake t).
+  { intros t f g Lt t'. unfold t'. repeat split; try reflexivity.
+    - cbn [thr tick_clock]. now rewrite !len_modify.
+    - rewrite gt_tick_clock, gt_modify by (rewrite len_modify; lia).
+      rewrite Nat.eqb_refl, gt_modify by lia. now rewrite Epc.
+    - rewrite gt_tick_clock, gt_modify by (rewrite len_modify; lia).
+      rewrite Ecp, gt_modify by lia. now rewrite Nat.eqb_refl.
+    - intros k H1 H2. rewrite gt_tick_clock, gt_modify by (rewrite len_modify; lia).
+      rewrite (proj2 (Nat.eqb_neq k p) H1), gt_modify by lia. now rewrite (proj2 (Nat.eqb_neq k c) H2). }
+  assert (STEP1 : forall t f, length (thr t) = length (thr s) ->
+            let t' := tick_clock (modify t p f) in
+            length (thr t') = length (thr s) /\ gt t' p = f (gt t p) /\ gt t' c = gt t c /\
+            (forall k, k <> p -> k <> c -> gt t' k = gt t k) /\
+            crashed t' = crashed t /\ joins t' = joins t /\ badwake t' = badwake t).
+  { intros t f Lt t'. unfold t'. repeat split; try reflexivity.
+    - cbn [thr tick_clock]. now rewrite !len_modify.
+    - rewrite gt_tick_clock, gt_modify by lia. now rewrite Nat.eqb_refl.
+    - rewrite gt_tick_clock, gt_modify by lia. now rewrite Ecp.
+    - intros k H1 H2. rewrite gt_tick_clock, gt_modify by lia. now rewrite (proj2 (Nat.eqb_neq k p) H1). }
+  destruct X1 as (X1a & X1b & X1c).
+  (* 2: return from create *)
+  destruct (STEP1 t1 (fun x => set_main x Idle) L1) as (L2 & P2 & C2 & K2 & Xa2 & Xb2 & Xc2).
+  set (t2 := tick_clock (modify t1 p (fun x => set_main x Idle))) in *.
+  assert (E2 : step t1 (p, ERet 0%Z) = Some t2).
+  { unfold step, step_cfg. rewrite X1a. unfold ret, ret_ok. rewrite P1. cbn. reflexivity. }
+  clearbody t2.
+  (* 3: call detach *)
+  destruct (STEP t2 (fun x => set_main x (DFast c)) (fun x => set_gh x (g_claim (gh x) (Some p))) L2)
+    as (L3 & P3 & C3 & K3 & Xa3 & Xb3 & Xc3).
+  set (t3 := tick_clock (modify (modify t2 c (fun x => set_gh x (g_claim (gh x) (Some p)))) p (fun x => set_main x (DFast c)))) in *.
+  assert (E3 : step t2 (p, ECall (Detach c)) = Some t3).
+  { unfold step, step_cfg. rewrite Xa2, X1a. unfold call_cfg. rewrite P2, P1. cbn [main cb set_main].
+    rewrite Ecb. unfold exists_thread. rewrite C2, C1. cbn. reflexivity. }
+  clearbody t3.
+  (* 4: detach.fast *)
+  destruct (STEP1 t3 (fun x => set_main x (DLock c)) L3) as (L4 & P4 & C4 & K4 & Xa4 & Xb4 & Xc4).
+  set (t4 := tick_clock (modify t3 p (fun x => set_main x (DLock c)))) in *.
+  assert (E4 : step t3 (p, ETick) = Some t4).
+  { unfold step, step_cfg. rewrite Xa3, Xa2, X1a. unfold tick. rewrite P3. cbn [main set_main].
+    rewrite C3, C2, C1. cbn. reflexivity. }
+  clearbody t4.
+  (* 5: lock *)
+  destruct (STEP t4 (fun x => set_main x (DCheck c)) (fun x => set_lockh x (Some p)) L4)
+    as (L5 & P5 & C5 & K5 & Xa5 & Xb5 & Xc5).
+  set (t5 := tick_clock (modify (modify t4 c (fun x => set_lockh x (Some p))) p (fun x => set_main x (DCheck c)))) in *.
+  assert (E5 : step t4 (p, ETick) = Some t5).
+  { unfold step, step_cfg. rewrite Xa4, Xa3, Xa2, X1a. unfold tick. rewrite P4. cbn [main set_main].
+    unfold acquire. rewrite C4, C3, C2, C1. cbn. reflexivity. }
+  clearbody t5.
+  (* 6: detach.check *)
+  destruct (STEP1 t5 (fun x => set_main x (DSet c)) L5) as (L6 & P6 & C6 & K6 & Xa6 & Xb6 & Xc6).
+  set (t6 := tick_clock (modify t5 p (fun x => set_main x (DSet c)))) in *.
+  assert (E6 : step t5 (p, ETick) = Some t6).
+  { unfold step, step_cfg. rewrite Xa5, Xa4, Xa3, Xa2, X1a. unfold tick. rewrite P5. cbn [main set_main].
+    rewrite C5, C4, C3, C2, C1. cbn. reflexivity. }
+  clearbody t6.
+  (* 7: detach.set *)
+  destruct (STEP t6 (fun x => set_main x (Done 0 None)) (fun x => set_gh (unlock (set_detached x true)) (g_rdone (gh x))) L6)
+    as (L7 & P7 & C7 & K7 & Xa7 & Xb7 & Xc7).
+  set (t7 := tick_clock (modify (modify t6 c (fun x => set_gh (unlock (set_detached x true)) (g_rdone (gh x)))) p
+                                (fun x => set_main x (Done 0 None)))) in *.
+  assert (E7 : step t6 (p, ETick) = Some t7).
+  { unfold step, step_cfg. rewrite Xa6, Xa5, Xa4, Xa3, Xa2, X1a. unfold tick. rewrite P6. cbn [main set_main]. reflexivity. }
+  clearbody t7.
+  exists t7. split.
+  { unfold detach_after_create. cbn [steps]. now rewrite E1, E2, E3, E4, E5, E6, E7. }
+  split; [now rewrite crashed_tick, !crashed_modify|].
+  split; [congruence|]. split; [rewrite joins_tick, !joins_modify; congruence|].
+  split; [rewrite badwake_tick, !badwake_modify; congruence|].
+  intros k. rewrite gt_tick_clock, gt_modify by (rewrite len_modify; exact Hp). rewrite !(gt_modify _ c) by exact Hc.
+  destruct (Nat.eqb_spec k p) as [->|Hkp].
+  - rewrite Epc, P7, P6, P5, P4, P3, P2, P1. reflexivity.
+  - destruct (Nat.eqb_spec k c) as [->|Hkc].
+    + rewrite C7, C6, C5, C4, C3, C2, C1. unfold new_thread, st'. cbn. reflexivity.
+    + rewrite K7, K6, K5, K4, K3, K2, K1 by assumption. reflexivity.
+Qed.
 
-Ltac intro_vars :=
-  repeat lazymatch goal with
-         | |- forall x : ?T, _ => lazymatch type of T with Prop => fail | _ => intro end
-         end.
+(** before commit e6d6e48 creation ignored attr->detachstate: the thread finishes like a joinable
+    one, nobody may reap it (the caller asked for a detached thread), its record is never released -
+    the state below is quiescent, no reaping call on it is enabled, and the record is still out.
+    With the code as it is now the same schedule releases it. *)
+Definition run_cfg (cfg : config) (sched : list (nat * ev)) (s : state) : state :=
+  fold_left (fun s a => match step_cfg cfg s a with Some s' => s' | None => s end) sched s.
+Definition det_attr : option attr :=
+  Some (attr_setdetachstate (attr_init (mkGlobals 131072 0 1) attr_dirty) 1).
+Definition leak_sched : list (nat * ev) :=
+  [(0, ECall (Create 1 det_attr true 7%Z)); (1, ETick); (1, ECall (Return 5%Z)); (1, ETick); (1, ETick);
+   (1, ECbTick); (1, ECbTick); (1, ECbTick); (0, ERet 0%Z)].
 
-(** after [step_inv]: normalise the successor state, split on the index equalities, instantiate the
-    invariant of the predecessor state with [inst], close *)
-Ltac prep HI inst :=
-  intro_vars; unfold exists_thread in *; eqb_hyps; cb_main HI; target_inr HI; use_fresh HI;
-  pose proof fin3; gt_norm; eqb_cases; eqb_hyps; inst; rew_pcs.
-Ltac crunch HI inst := prep HI inst; finish.
-Ltac crunch_dbg HI inst := prep HI inst; finish_dbg.
+Lemma detached_attr_prefix_refuted :
+  let s := run_cfg cfg_prefix_det leak_sched (init_state 1) in
+  let s' := run_cfg cfg_now leak_sched (init_state 1) in
+  (finish_complete (gt s 1) = true /\ rdone (gh (gt s 1)) = true /\ desc_freed (gh (gt s 1)) = 0 /\
+   stack_freed (gh (gt s 1)) = 1 /\ crashed s = false /\
+   (forall j, tick s j = None /\ cbtick s j = None) /\
+   (forall j, call_cfg cfg_prefix_det s j (Join 1) = None /\ call_cfg cfg_prefix_det s j (TryJoin 1) = None /\
+              call_cfg cfg_prefix_det s j (TimedJoin 1) = None /\ call_cfg cfg_prefix_det s j (Detach 1) = None)) /\
+  (finish_complete (gt s' 1) = true /\ desc_freed (gh (gt s' 1)) = 1 /\ stack_freed (gh (gt s' 1)) = 1).
+Proof.
+  cbv zeta. split; [|repeat split; vm_compute; reflexivity].
+  repeat split; try (vm_compute; reflexivity).
+  all: destruct j as [|[|j]]; try (vm_compute; reflexivity).
+  all: unfold tick, cbtick, call_cfg, gt; try (destruct j; vm_compute; reflexivity).
+Qed.
 
-Ltac i2 HI f := forall_nat ltac:(fun x y => pose proof (f _ HI x y)).
-Ltac i1 HI f := forall_nat1 ltac:(fun x => pose proof (f _ HI x)).
+(* ------------------------------------------------------------------------------------------ *)
+(** * The sequential allocator model: bounded memory on one worker (C13_bounded_memory) *)
+
+Lemma filter_upd_count {A} (P : A -> bool) (l : list A) t x y :
+  nth_error l t = Some x ->
+  length (filter P (upd l t y)) + (if P x then 1 else 0) = length (filter P l) + (if P y then 1 else 0).
+Proof.
+  revert t; induction l as [|z l IH]; intros [|t] H; cbn in H; try discriminate.
+  - injection H as ->. cbn [upd filter]. destruct (P x), (P y); cbn [length]; lia.
+  - cbn [upd filter]. specialize (IH t H). destruct (P z); cbn [length]; lia.
+Qed.
+
+Lemma filter_snoc_count {A} (P : A -> bool) (l : list A) y :
+  length (filter P (l ++ [y])) = length (filter P l) + (if P y then 1 else 0).
+Proof. rewrite filter_app, app_length. cbn. destruct (P y); reflexivity. Qed.
+
+Lemma running_le_unreaped s : running s <= unreaped s.
+Proof.
+  unfold running, unreaped. induction (ath s) as [|a l IH]; cbn; [lia|].
+  unfold is_running, is_unreaped in *. destruct (a_ph a); cbn; lia.
+Qed.
+
+(** everything obtained from the system is on the free list or owned *)
+Definition AInv (s : astate) : Prop :=
+  nd s = length (fd s) + unreaped s /\ ns s = length (fs s) + running s.
+
+Lemma AInv_init : AInv ainit.
+Proof. split; reflexivity. Qed.
+
+Lemma astep_inv s e s' : AInv s -> astep s e = Some s' ->
+  AInv s' /\ (nd s' = nd s \/ (nd s' = S (nd s) /\ nd s' = unreaped s')) /\
+             (ns s' = ns s \/ (ns s' = S (ns s) /\ ns s' = running s')).
+Proof.
+  intros [I1 I2] H. unfold AInv. destruct e as [det|t|t|t]; cbn [astep] in H.
+  - unfold take in H.
+    destruct (fd s) as [|d fr] eqn:Ed; destruct (fs s) as [|k sr] eqn:Es; injection H as <-;
+      unfold unreaped, running in *; cbn [ath fd nd fs ns] in *; rewrite !filter_snoc_count;
+      cbn [is_unreaped is_running a_ph length] in *; repeat split; try lia.
+  - destruct (nth_error (ath s) t) as [[d k det ph]|] eqn:En; [|discriminate].
+    destruct ph; try discriminate.
+    pose proof (filter_upd_count is_unreaped (ath s) t (mkA d k det ARun)) as U.
+    pose proof (filter_upd_count is_running (ath s) t (mkA d k det ARun)) as R.
+    destruct det; injection H as <-; unfold unreaped, running in *; cbn [ath fd nd fs ns length] in *.
+    + specialize (U (mkA d k true AGone) En). specialize (R (mkA d k true AGone) En).
+      cbn [is_unreaped is_running a_ph] in *. repeat split; try lia.
+    + specialize (U (mkA d k false ADone) En). specialize (R (mkA d k false ADone) En).
+      cbn [is_unreaped is_running a_ph] in *. repeat split; try lia.
+  - destruct (nth_error (ath s) t) as [[d k det ph]|] eqn:En; [|discriminate].
+    destruct det; try discriminate. destruct ph; try discriminate. injection H as <-.
+    pose proof (filter_upd_count is_unreaped (ath s) t (mkA d k false ADone) (mkA d k false AGone) En) as U.
+    pose proof (filter_upd_count is_running (ath s) t (mkA d k false ADone) (mkA d k false AGone) En) as R.
+    unfold unreaped, running in *; cbn [ath fd nd fs ns length is_unreaped is_running a_ph] in *.
+    repeat split; try lia.
+  - destruct (nth_error (ath s) t) as [[d k det ph]|] eqn:En; [|discriminate].
+    destruct det; try discriminate. destruct ph; try discriminate. injection H as <-.
+    pose proof (filter_upd_count is_unreaped (ath s) t (mkA d k false ARun) (mkA d k true ARun) En) as U.
+    pose proof (filter_upd_count is_running (ath s) t (mkA d k false ARun) (mkA d k true ARun) En) as R.
+    unfold unreaped, running in *; cbn [ath fd nd fs ns length is_unreaped is_running a_ph] in *.
+    repeat split; try lia.
+Qed.
+
+Lemma peak_head h s : unreaped s <= peak_unreaped h s.
+Proof. unfold peak_unreaped. destruct h; cbn [astates map list_max fold_right]; lia. Qed.
+
+Lemma bounded_memory_gen h : forall s, AInv s ->
+  AInv (arun h s) /\
+  nd (arun h s) <= Nat.max (nd s) (peak_unreaped h s) /\
+  ns (arun h s) <= Nat.max (ns s) (peak_unreaped h s).
+Proof.
+  induction h as [|e r IH]; intros s HI.
+  - unfold arun; cbn [fold_left]. split; [exact HI|]. split; lia.
+  - unfold arun; cbn [fold_left]. fold (arun r (aexec s e)).
+    assert (Hp : peak_unreaped (e :: r) s = Nat.max (unreaped s) (peak_unreaped r (aexec s e))).
+    { unfold peak_unreaped. cbn [astates map list_max fold_right]. reflexivity. }
+    rewrite Hp. unfold aexec at 1 2 3 4 5. unfold aexec in Hp.
+    destruct (astep s e) as [s'|] eqn:E.
+    + destruct (astep_inv s e s' HI E) as (HI' & Hd & Hs).
+      destruct (IH s' HI') as (I & A & B). split; [exact I|].
+      pose proof (peak_head r s') as PH. pose proof (running_le_unreaped s') as RU.
+      split; [destruct Hd as [Hd|[Hd1 Hd2]]|destruct Hs as [Hs|[Hs1 Hs2]]]; lia.
+    + destruct (IH s HI) as (I & A & B). split; [exact I|]. split; lia.
+Qed.
+
+(** one worker, any history of creations (detached or not), finishes, reaps and detaches: the
+    number of records, and of stacks, ever obtained from the system is at most the peak number of
+    simultaneously unreaped threads *)
+Lemma bounded_memory h :
+  nd (arun h ainit) <= peak_unreaped h ainit /\ ns (arun h ainit) <= peak_unreaped h ainit /\
+  nd (arun h ainit) = length (fd (arun h ainit)) + unreaped (arun h ainit) /\
+  ns (arun h ainit) = length (fs (arun h ainit)) + running (arun h ainit).
+Proof.
+  destruct (bounded_memory_gen h ainit AInv_init) as ([I1 I2] & A & B). cbn [nd ns ainit] in *.
+  repeat split; auto; lia.
+Qed.
+
+(** along every schedule from every initial state *)
+Lemma runs_once_sched n sched t : runs (gh (gt (run step sched (init_state n)) t)) <= 1.
+Proof. exact (proj1 (runs_once _ t (run_reach n sched))). Qed.
+
+Lemma reaped_once_sched n sched t :
+  reaped (gh (gt (run step sched (init_state n)) t)) <= 1 /\
+  desc_freed (gh (gt (run step sched (init_state n)) t)) <= 1 /\
+  stack_freed (gh (gt (run step sched (init_state n)) t)) <= 1.
+Proof.
+  destruct (reaped_once _ t (run_reach n sched)) as (A & B & C & _). rewrite B. auto.
+Qed.
